@@ -678,6 +678,7 @@ func (e *Enc) enterLoop(fr *Frame, li *LoopInfo, h *ssa.BasicBlock, inEdges []Te
 		g := e.compileBool(ctx, inv.Expr)
 		o := e.addObl(fr, fmt.Sprintf("loop%d-entry", li.Ordinal), implies(reach, g), inv.Src, h.Instrs[0].Pos(), inv.Props)
 		o.Name = fmt.Sprintf("%s/loop%d-entry#%d", contractName(e.top), li.Ordinal, k+1)
+		o.Group = inv.Group
 	}
 	// havoc
 	st := in.clone()
@@ -785,7 +786,7 @@ func (e *Enc) enterLoop(fr *Frame, li *LoopInfo, h *ssa.BasicBlock, inEdges []Te
 			continue
 		}
 		ctx := e.loopCtx(fr, li, h, hphi, st)
-		e.B.assume(implies(reach, e.compileBool(ctx, inv.Expr)))
+		e.B.assumeG(implies(reach, e.compileBool(ctx, inv.Expr)), inv.Group)
 	}
 	if len(invs) == 0 {
 		e.note("loop %d of %s has no invariant (havoc only)", li.Ordinal, contractName(fr.fn))
@@ -825,8 +826,9 @@ func (e *Enc) checkBackEdge(fr *Frame, li *LoopInfo, from *ssa.BasicBlock, cond 
 		o := e.addObl(fr, fmt.Sprintf("loop%d-preserved", li.Ordinal), implies(cond, g), inv.Src, h.Instrs[0].Pos(), inv.Props)
 		o.Name = fmt.Sprintf("%s/loop%d-preserved#%d@b%d", contractName(e.top), li.Ordinal, k+1, from.Index)
 		o.Cases = mergeCases(fr, from, li)
+		o.Group = inv.Group
 		if checkProp == "" || hasProp(o.Props, checkProp) {
-			e.B.assume(implies(cond, g))
+			e.B.assumeG(implies(cond, g), inv.Group)
 		}
 	}
 }
